@@ -33,6 +33,23 @@ func bodyLogsError(info *types.Info, n ast.Node) *ast.CallExpr {
 // positive surface form: `c`, `!c`, the comparison with its operator flipped when the fact is a
 // negated comparison, and the label alone for `switch tag { case label: }`.
 func guardedError(pk *packages.Package, fd *ast.FuncDecl, pred func(cond ast.Expr) bool) *ast.CallExpr {
+	for _, g := range errorGuards(pk, fd) {
+		for _, cnd := range g.conds {
+			if pred(ast.Unparen(cnd)) {
+				return g.call
+			}
+		}
+	}
+	return nil
+}
+
+// errGuard: an error-logging call and the surface forms of the conditions under which it runs.
+type errGuard struct {
+	call  *ast.CallExpr
+	conds []ast.Expr
+}
+
+func errorGuards(pk *packages.Package, fd *ast.FuncDecl) []errGuard {
 	info := pk.TypesInfo
 	par := parents(fd)
 	var calls []*ast.CallExpr
@@ -45,42 +62,49 @@ func guardedError(pk *packages.Package, fd *ast.FuncDecl, pred func(cond ast.Exp
 		}
 		return true
 	})
+	var out []errGuard
 	for _, call := range calls {
+		g := errGuard{call: call}
 		// the raw (unsplit) conditions first: some predicates look at a whole conjunction
 		for q, child := par[ast.Node(call)], ast.Node(call); q != nil; child, q = q, par[q] {
-			if ifs, ok := q.(*ast.IfStmt); ok && child == ast.Node(ifs.Body) && pred(ast.Unparen(ifs.Cond)) {
-				return call
+			if ifs, ok := q.(*ast.IfStmt); ok && child == ast.Node(ifs.Body) {
+				g.conds = append(g.conds, ifs.Cond)
 			}
 			if cc, ok := q.(*ast.CaseClause); ok {
-				for _, l := range cc.List {
-					if pred(ast.Unparen(l)) {
-						return call
+				g.conds = append(g.conds, cc.List...)
+			}
+		}
+		// "for every element of X" implies "X is not empty"
+		for q, child := par[ast.Node(call)], ast.Node(call); q != nil; child, q = q, par[q] {
+			switch x := q.(type) {
+			case *ast.FuncLit:
+				if fc, ok := par[x].(*ast.CallExpr); ok {
+					if sel, ok := fc.Fun.(*ast.SelectorExpr); ok && sel.Sel.Name == "ForEach" {
+						g.conds = append(g.conds, &ast.UnaryExpr{Op: token.NOT, X: &ast.CallExpr{Fun: &ast.SelectorExpr{X: sel.X, Sel: ast.NewIdent("Empty")}}})
 					}
+				}
+			case *ast.RangeStmt:
+				if child == ast.Node(x.Body) {
+					g.conds = append(g.conds, &ast.BinaryExpr{X: &ast.CallExpr{Fun: ast.NewIdent("len"), Args: []ast.Expr{x.X}}, Op: token.GTR, Y: &ast.BasicLit{Kind: token.INT, Value: "0"}})
 				}
 			}
 		}
 		for _, f := range pathConds(info, par, call) {
-			var cands []ast.Expr
 			if !f.neg {
-				cands = append(cands, f.e)
+				g.conds = append(g.conds, f.e)
 			} else {
-				cands = append(cands, &ast.UnaryExpr{Op: token.NOT, X: f.e})
+				g.conds = append(g.conds, &ast.UnaryExpr{Op: token.NOT, X: f.e})
 			}
 			if l, op, r, ok := cmpFact(f.e, !f.neg); ok {
-				be := &ast.BinaryExpr{X: l, Op: op, Y: r}
-				cands = append(cands, be)
+				g.conds = append(g.conds, &ast.BinaryExpr{X: l, Op: op, Y: r})
 				if orig, isBE := ast.Unparen(f.e).(*ast.BinaryExpr); isBE && orig.OpPos == token.NoPos && !f.neg {
-					cands = append(cands, r) // switch tag { case label: }
-				}
-			}
-			for _, cnd := range cands {
-				if pred(ast.Unparen(cnd)) {
-					return call
+					g.conds = append(g.conds, r) // switch tag { case label: }
 				}
 			}
 		}
+		out = append(out, g)
 	}
-	return nil
+	return out
 }
 
 func isNilCmp(e ast.Expr, op token.Token) (ast.Expr, bool) {
@@ -261,7 +285,9 @@ func ruleWF1(c *Ctx) {
 			x, ok := isNilCmp(e, token.EQL)
 			return ok && strings.Contains(exprString(x), "LexerModes[")
 		}, "@push_mode of an undefined mode is reported"},
-		{"macro-cycle", "MacroRule.NFACons", func(i *types.Info, _ ast.Node, e ast.Expr) bool { return isField(i, e, "internal/ast", "MacroRule", "cycleDetect") }, "re-entering a macro that is being expanded is reported"},
+		{"macro-cycle", "MacroRule.NFACons", func(i *types.Info, _ ast.Node, e ast.Expr) bool {
+			return isField(i, e, "internal/ast", "MacroRule", "cycleDetect")
+		}, "re-entering a macro that is being expanded is reported"},
 		{"start-redefined", "ParserRule.RunPass", func(i *types.Info, fn ast.Node, e ast.Expr) bool {
 			x, ok := isNilCmp(e, token.NEQ)
 			return ok && isField(i, resolveVia(i, localDefs(i, fn), x), "internal/ast", "Context", "StartParserRule")
@@ -270,8 +296,14 @@ func ruleWF1(c *Ctx) {
 			x, ok := isNilCmp(e, token.EQL)
 			return ok && isField(i, resolveVia(i, localDefs(i, fn), x), "internal/ast", "Context", "StartParserRule")
 		}, "a missing @start is reported"},
-		{"discard-on-token", "TokenRule.RunPass", func(i *types.Info, _ ast.Node, e ast.Expr) bool { o := usesObj(i, e); return o != nil && o.Name() == "ActionDiscard" }, "@discard on a token is reported"},
-		{"emit-on-token", "TokenRule.RunPass", func(i *types.Info, _ ast.Node, e ast.Expr) bool { o := usesObj(i, e); return o != nil && o.Name() == "ActionAccept" }, "@emit on a token is reported"},
+		{"discard-on-token", "TokenRule.RunPass", func(i *types.Info, _ ast.Node, e ast.Expr) bool {
+			o := usesObj(i, e)
+			return o != nil && o.Name() == "ActionDiscard"
+		}, "@discard on a token is reported"},
+		{"emit-on-token", "TokenRule.RunPass", func(i *types.Info, _ ast.Node, e ast.Expr) bool {
+			o := usesObj(i, e)
+			return o != nil && o.Name() == "ActionAccept"
+		}, "@emit on a token is reported"},
 		{"two-discards-on-fragment", "FragRule.RunPass", func(i *types.Info, fn ast.Node, e ast.Expr) bool {
 			o := usesObj(i, e)
 			return o != nil && actionFlags(i, fn)["ActionDiscard"] == o
@@ -323,6 +355,14 @@ func ruleWF1(c *Ctx) {
 		}
 		call := guardedError(pk, fd, func(e ast.Expr) bool { return s.pred(info, fd, e) })
 		if call == nil {
+			// the enforcing code may have been moved into a function this one calls
+			for _, sc := range funcScope(p, pk, fd, 2) {
+				if hd, isDecl := sc.node.(*ast.FuncDecl); isDecl && hd != fd && call == nil {
+					call = guardedError(pk, hd, func(e ast.Expr) bool { return s.pred(info, hd, e) })
+				}
+			}
+		}
+		if call == nil {
 			c.bad(rule, construct, p.Pos(fd.Pos()), "no error is logged under the condition that detects this fault: %s no longer holds", s.what)
 			continue
 		}
@@ -346,6 +386,40 @@ func ruleWF1(c *Ctx) {
 			}
 			return true
 		})
+		if !ok {
+			// the same decision spelled with comma-ok assertions: the error is reached only after
+			// the assertions to *ParserRule and to *TokenRule both failed
+			assertedType := map[types.Object]string{}
+			ast.Inspect(fd.Body, func(n ast.Node) bool {
+				as, isAs := n.(*ast.AssignStmt)
+				if !isAs || len(as.Lhs) != 2 || len(as.Rhs) != 1 {
+					return true
+				}
+				if ta, isTA := ast.Unparen(as.Rhs[0]).(*ast.TypeAssertExpr); isTA && ta.Type != nil {
+					if o := usesObj(info, as.Lhs[1]); o != nil {
+						assertedType[o] = namedTypeName(info.TypeOf(ta.Type))
+					}
+				}
+				return true
+			})
+			par := parents(fd)
+			ast.Inspect(fd.Body, func(n ast.Node) bool {
+				call, isCall := n.(*ast.CallExpr)
+				if !isCall || bodyLogsError(info, &ast.ExprStmt{X: call}) != call {
+					return true
+				}
+				failed := map[string]bool{}
+				for _, f := range pathConds(info, par, call) {
+					if o := usesObj(info, f.e); o != nil && f.neg && assertedType[o] != "" {
+						failed[assertedType[o]] = true
+					}
+				}
+				if failed["ParserRule"] && failed["TokenRule"] {
+					ok = true
+				}
+				return true
+			})
+		}
 		c.check(ok, rule, "ast.ParserTerm.preCheck/wrong-kind(parser term)", p.Pos(fd.Pos()), "a name that is neither a rule nor a token is reported", "a production can name a macro/mode/@external without an error")
 	}
 	// naming rules: validateTokenName before RegisterName in the three token-like declarations;
@@ -787,21 +861,28 @@ func ruleWF3(c *Ctx) {
 		})
 		c.check(ok, rule, "ast.Context.Analyze/stop-after-failing-pass", p.Pos(fd.Pos()), "errors are tested right after every pass and stop the analysis", "a pass with errors does not stop the analysis: later passes run on an ill-formed specification")
 		// pass order
+		// the table Analyze walks: a package-level slice of Pass that is never written
 		var order []string
-		for _, f := range pk.Syntax {
-			ast.Inspect(f, func(n ast.Node) bool {
-				vs, isVS := n.(*ast.ValueSpec)
-				if !isVS || len(vs.Names) != 1 || vs.Names[0].Name != "passes" || len(vs.Values) != 1 {
-					return true
-				}
-				if cl, isCL := vs.Values[0].(*ast.CompositeLit); isCL {
+		ast.Inspect(fd.Body, func(n ast.Node) bool {
+			var tbl ast.Expr
+			switch x := n.(type) {
+			case *ast.RangeStmt:
+				tbl = x.X
+			case *ast.IndexExpr:
+				tbl = x.X
+			}
+			if tbl == nil || len(order) > 0 {
+				return true
+			}
+			if sl, ok := info.TypeOf(tbl).Underlying().(*types.Slice); ok && typeIs(sl.Elem(), "internal/ast", "Pass") {
+				if cl, isCL := ast.Unparen(pkgVarInit(p, pk, usesObj(info, tbl))).(*ast.CompositeLit); isCL {
 					for _, el := range cl.Elts {
 						order = append(order, exprString(el))
 					}
 				}
-				return true
-			})
-		}
+			}
+			return true
+		})
 		c.check(strings.Join(order, ",") == "CreateNames,Check,Normalize,GenerateGrammar", rule, "ast.passes/order", "", "passes run as CreateNames, Check, Normalize, GenerateGrammar", "pass order is "+strings.Join(order, ","))
 	}
 	pk2, pl := p.FuncDecl("internal/codegen", "context.ParseLox")
